@@ -202,6 +202,10 @@ func (x *Exec) sprintf(s *State, site ssa.Instruction, format *Term, argv Val) *
 	return Concat(parts...)
 }
 
+// hintChars: the delimiter characters for which the string models state the
+// (theory-valid) fact that pieces and replacements introduce no new character.
+var hintChars = []string{"\""}
+
 // libCall returns true when the call was handled (k has been invoked).
 func (x *Exec) libCall(s *State, site ssa.Instruction, fn *ssa.Function, name string, args []Val, k func(*State, Val)) bool {
 	T := func(i int) *Term {
@@ -252,6 +256,10 @@ func (x *Exec) libCall(s *State, site ssa.Instruction, fn *ssa.Function, name st
 			// two parts exactly: second is the remainder
 			after := Substr(str, Add(idx, StrLen(sep)), Sub(StrLen(str), Add(idx, StrLen(sep))))
 			s.assume(Implies(And(sepNonEmpty, StrContains(str, sep), Not(StrContains(after, sep))), And(Eq(res.Len, Int(2)), Eq(Select(arr, Int(1)), after))))
+			// a second separator: at least three parts, the second one is the text
+			// between the first two separators
+			idx2 := StrIndexOf(after, sep, Int(0))
+			s.assume(Implies(And(sepNonEmpty, StrContains(str, sep), StrContains(after, sep)), And(Ge(res.Len, Int(3)), Eq(Select(arr, Int(1)), Substr(after, Int(0), idx2)))))
 		}
 		if sep.Op == "str" && sep.Str != "" && name == "strings.Split" {
 			// Join(Split(s, sep), sep) == s: asserted here for the blank, and for
@@ -270,6 +278,11 @@ func (x *Exec) libCall(s *State, site ssa.Instruction, fn *ssa.Function, name st
 		i := Var("i!f", SInt)
 		s.assume(Forall([]*Term{i}, Implies(And(Ge(i, Int(0)), Lt(i, res.Len)), And(Gt(StrLen(Select(arr, i)), Int(0)), Not(StrContains(Select(arr, i), Str(" "))), StrContains(T(0), Select(arr, i))))))
 		s.assume(Le(res.Len, StrLen(T(0))))
+		// hints (valid in the theory of strings): a piece has no character its
+		// source lacks
+		for _, c := range hintChars {
+			s.assume(Forall([]*Term{i}, Implies(And(Ge(i, Int(0)), Lt(i, res.Len), Not(StrContains(T(0), Str(c)))), Not(StrContains(Select(arr, i), Str(c))))))
+		}
 		k(s, res)
 		return true
 	case "strings.Join":
@@ -346,7 +359,13 @@ func (x *Exec) libCall(s *State, site ssa.Instruction, fn *ssa.Function, name st
 	case "strings.Replace", "strings.ReplaceAll":
 		x.used(name)
 		if name == "strings.ReplaceAll" || (len(args) > 3 && T(3).Op == "int" && T(3).I.Sign() < 0) {
-			k(s, StrReplaceAll(T(0), T(1), T(2)))
+			r := StrReplaceAll(T(0), T(1), T(2))
+			// hint: replacing cannot introduce a character neither the text nor
+			// the replacement has
+			for _, c := range hintChars {
+				s.assume(Implies(And(Not(StrContains(T(0), Str(c))), Not(StrContains(T(2), Str(c)))), Not(StrContains(r, Str(c)))))
+			}
+			k(s, r)
 			return true
 		}
 		k(s, x.freshStr(s, site, "replace"))
